@@ -669,6 +669,7 @@ asn_double2REAL(REAL_t *st, double dbl_value) {
 	char assertion_buffer2[sizeof(dbl_value) - 7] CC_NOTUSED;
 	uint8_t *ptr = buf;
 	uint8_t *mstop;		/* Last byte of mantissa */
+	uint8_t *mstart;	/* First non-zero byte of mantissa */
 	unsigned int mval;	/* Value of the last byte of mantissa */
 	unsigned int bmsign;	/* binary mask with sign */
 	unsigned int buflen;
@@ -809,8 +810,12 @@ asn_double2REAL(REAL_t *st, double dbl_value) {
 		*ptr++ = expval;
 	}
 
-	buflen = (mstop - dscr) + 1;
-	memcpy(ptr, dscr, buflen);
+	/* X.690 #11.3.2: the mantissa takes the fewest octets necessary */
+	mstart = dscr;
+	while(mstart < mstop && *mstart == 0)
+		mstart++;
+	buflen = (mstop - mstart) + 1;
+	memcpy(ptr, mstart, buflen);
 	ptr += buflen;
 	buflen = ptr - buf;
 
